@@ -27,6 +27,9 @@ type Key struct {
 	edPrv ed25519.PrivateKey
 	EdPub ed25519.PublicKey
 	Nonce string // optional nonce member of the JWK
+	// XSpelling / YSpelling, when set, replace the canonical base64url text of the coordinates in the JWK (another spelling of
+	// the same bytes); reveal value, commitment and signed data are then derived from the JWK as spelled
+	XSpelling, YSpelling string
 }
 
 func curveFor(typ string) elliptic.Curve {
@@ -136,10 +139,32 @@ func (k *Key) JWK() map[string]interface{} {
 		m["kty"], m["crv"] = "EC", k.Type
 		m["x"], m["y"] = B64(fixed(k.X, k.CoordSize())), B64(fixed(k.Y, k.CoordSize()))
 	}
+	if k.XSpelling != "" {
+		m["x"] = k.XSpelling
+	}
+	if k.YSpelling != "" {
+		m["y"] = k.YSpelling
+	}
 	if k.Nonce != "" {
 		m["nonce"] = k.Nonce
 	}
 	return m
+}
+
+// AltSpelling returns another base64url text that lenient decoders map to the same bytes (the unused low bits of the last
+// character set), or "" when the text has no unused bits.
+func AltSpelling(b64 string) string {
+	const alphabet = "ABCDEFGHIJKLMNOPQRSTUVWXYZabcdefghijklmnopqrstuvwxyz0123456789-_"
+	spare := map[int]int{2: 4, 3: 2}[len(b64)%4] // unused bits in the last character
+	if spare == 0 || len(b64) == 0 {
+		return ""
+	}
+	for i := 0; i < 64; i++ {
+		if alphabet[i] == b64[len(b64)-1] {
+			return b64[:len(b64)-1] + string(alphabet[i|1])
+		}
+	}
+	return ""
 }
 
 // CanonicalJWK is the JCS form of the JWK.
